@@ -56,7 +56,7 @@ def soergel(fp1, fp2):
 
     """
     if not (
-        isinstance(fp1, CountFingerprint) and isinstance(fp2, CountFingerprint)
+        isinstance(fp1, CountFingerprint) or isinstance(fp2, CountFingerprint)
     ):
         return tanimoto(fp1, fp2)
 
